@@ -77,9 +77,19 @@ type Conn struct {
 	// ReadLog records, per successful Read, the time and the total bytes consumed so far, so
 	// that oracles can tell when the node finished reading a given message.
 	ReadLog []ReadMark
+	// WriteLog, when KeepWrites is set, records every accepted Write (time and bytes) so that
+	// oracles can tell what was written even if the remote side never read it.
+	KeepWrites bool
+	WriteLog   []WriteMark
 	// OnRead is called (holding the baton) whenever a Read returns data, with the total number
 	// of bytes consumed so far on this endpoint.
 	Name string
+}
+
+type WriteMark struct {
+	At   time.Duration
+	Data []byte
+	Task string
 }
 
 type ReadMark struct {
@@ -183,9 +193,15 @@ func (c *Conn) Write(p []byte) (int, error) {
 		}
 	}
 	if c.out.hole {
+		if c.KeepWrites {
+			c.WriteLog = append(c.WriteLog, WriteMark{At: simrt.S.Now(), Data: append([]byte(nil), p...)})
+		}
 		return len(p), nil
 	}
 	s := simrt.S
+	if c.KeepWrites {
+		c.WriteLog = append(c.WriteLog, WriteMark{At: s.Now(), Data: append([]byte(nil), p...), Task: simrt.CurrentSite()})
+	}
 	at := s.Now() + c.link.latency()
 	if at < c.out.lastAt {
 		at = c.out.lastAt
